@@ -185,6 +185,7 @@ func crossCutting(w *World, x *vrt.Exec) {
 			w.foreign = append(w.foreign, "panic:"+site)
 		}
 	}
+	timerLeaks(w)
 	if len(x.Leftover) > 0 && x.End != "steps" {
 		for _, l := range x.Leftover {
 			if strings.HasPrefix(l, "drain-close-") || strings.Contains(l, "-app") || strings.Contains(l, "-main") {
@@ -199,6 +200,14 @@ func crossCutting(w *World, x *vrt.Exec) {
 				w.foreign = append(w.foreign, "leak:"+l)
 			}
 		}
+	}
+}
+
+// (timers: see World.AfterDrain)
+func timerLeaks(w *World) {
+	for _, l := range w.timerLeaks {
+		w.fail("leak/timer/"+l, "a timer of the connection still fires more than %v after both ends were closed: %s",
+			w.sc.Cfg.DrainTime, l)
 	}
 }
 
